@@ -83,13 +83,13 @@ type TOptEncodings struct {
 	DU32  uint32  `parquet:",dict"`
 }
 type TLogical struct {
-	Dec32 int32          `parquet:",decimal(2:9)"`
-	Dec64 int64          `parquet:",decimal(2:18)"`
-	Date  int32          `parquet:",date"`
-	TS    int64          `parquet:",timestamp(microsecond)"`
-	T     time.Time      `parquet:",timestamp(microsecond)"`
-	J     string         `parquet:",json"`
-	E     string         `parquet:",enum"`
+	Dec32 int32     `parquet:",decimal(2:9)"`
+	Dec64 int64     `parquet:",decimal(2:18)"`
+	Date  int32     `parquet:",date"`
+	TS    int64     `parquet:",timestamp(microsecond)"`
+	T     time.Time `parquet:",timestamp(microsecond)"`
+	J     string    `parquet:",json"`
+	E     string    `parquet:",enum"`
 	I96   deprecated.Int96
 }
 type TSlices struct {
@@ -370,7 +370,7 @@ var rowTypes = []*RT{
 	mkRT[TPointers]("Pointers"), mkRT[TEncodings]("Encodings"), mkRT[TOptEncodings]("OptEncodings"), mkRT[TLogical]("Logical"),
 	mkRT[TSlices]("Slices"), mkRT[TLists]("Lists"), mkRT[TOptList]("OptList"), mkRT[TOptSlice]("OptSlice"),
 	mkRT[TNested]("Nested"), mkRT[TSliceOfStruct]("SliceOfStruct"), mkRT[TListOfStruct]("ListOfStruct"),
-mkRT[TListOfList]("ListOfList"), mkRT[TMap]("Map"), mkRT[TMapOfStruct]("MapOfStruct"),
+	mkRT[TListOfList]("ListOfList"), mkRT[TMap]("Map"), mkRT[TMapOfStruct]("MapOfStruct"),
 	mkRT[TMapOfSlice]("MapOfSlice"), mkRT[TEmbedded]("Embedded"), mkRT[TDeep]("Deep"), mkRT[TBoolRuns]("BoolRuns"),
 	mkRT[TStrings]("Strings"), mkRT[TFloatsOnly]("FloatsOnly"), mkRT[TPtrStructList]("PtrStructList"), mkRT[TDictNested]("DictNested"), mkRT[TOptStruct]("OptStruct"), mkRT[TEmbeddedMid]("EmbeddedMid"),
 }
